@@ -1313,7 +1313,7 @@ func (c *RunCtx) writeSysCasesHdr(header, monitor string, strict bool) {
 func init() {
 	register(&Suite{Name: "c13", Run: func(ctx *RunCtx) {
 		t0 := time.Now()
-		c13Stream(ctx, ctx.N(3000, 100000))
+		c13Stream(ctx, ctx.N(3000, 85000))
 		t1 := time.Now()
 		c13Incomplete(ctx)
 		t2 := time.Now()
